@@ -64,6 +64,13 @@ Fixpoint run (s : S) (ops : list Op) : S * list out * list ev :=
     if stops x then (s1, [x], e)
     else let '(s2, xs, e2) := run s1 r in (s2, x :: xs, e ++ e2)
   end.
+(* a per-op precondition holds at every executed op *)
+Variable okb : S -> Op -> bool.
+Fixpoint api_ok (s : S) (ops : list Op) : bool :=
+  match ops with
+  | [] => true
+  | o :: r => okb s o && (let '(s1, x, _) := step s o in if stops x then true else api_ok s1 r)
+  end.
 End Run.
 
 (* destruction of every live holder variable, in index order (end of the owner's scope) *)
